@@ -5,10 +5,11 @@ import os, sys, json, random, io, contextlib, math
 import vlib
 sys.path.insert(0, os.path.join(vlib.VERIF, 'tools', 'translate'))
 
-LEAN_TARGETS = ['CvxVerif.Props.C10']
-MODEL_FILES = ['CvxVerif.Model.Faults', 'CvxVerif.Gen.Faults']
+LEAN_TARGETS = ['CvxVerif.Props.C10', 'CvxVerif.Props.C10Exits']
+MODEL_FILES = ['CvxVerif.Model.Faults', 'CvxVerif.Gen.Faults', 'CvxVerif.Gen.Exits']
 LEVEL = 'proof'
-TRUSTED = ['translator tools/translate/py2lean.py gen_faults (KKT call sites, enclosing except ArithmeticError handlers and their '
+TRUSTED = ['translator tools/translate/py2lean_exits.py (every `return {...}` of the main loops with its rescalings, symmetrisation walks and slack definitions -> Gen/Exits.lean)',
+           'translator tools/translate/py2lean.py gen_faults (KKT call sites, enclosing except ArithmeticError handlers and their '
            'control paths, raise statements) and the fixed semantics Model/Faults.lean; every injected fault is located in the '
            'generated table through the live Python frame (line number, iters, relaxed_iters) and its real outcome is compared '
            'with the outcome the model predicts']
@@ -17,9 +18,13 @@ ASSUMPTIONS = ['a failure of the KKT solver is an ArithmeticError raised by the 
 
 def translate(ctx):
     import py2lean
+    probs = []
     try: py2lean.gen_faults()
-    except Exception as e: return ['py2lean.gen_faults: %s: %s' % (type(e).__name__, e)]
-    return []
+    except Exception as e: probs.append('py2lean.gen_faults: %s: %s' % (type(e).__name__, e))
+    try:
+        import py2lean_exits; py2lean_exits.gen_exits()
+    except Exception as e: probs.append('py2lean_exits.gen_exits: %s: %s' % (type(e).__name__, e))
+    return probs
 
 def quiet(f, *a, **k):
     with contextlib.redirect_stdout(io.StringIO()):
@@ -89,6 +94,16 @@ def base_problems(cvxopt, rng, count):
                 kw = {'primalstart': {'x': +x0, 's': +s0}, 'dualstart': {'y': matrix(0.0, (0, 1)), 'z': +z0}}
             return quiet(solvers.conelp, c, G, h, dims, kktsolver=inj.kktsolver, options={'show_progress': False}, **kw)
         out.append(('conelp%d' % i, 'conelp', run_conelp))
+        DATA['conelp%d' % i] = {'dims': dims, 'G': G, 'h': h, 'c': c, 'P': None}
+        # --- conelp with an equality constraint: the multiplier y is part of what a failure exit hands back
+        AE = rmat(1, n); bE = AE * x0; yE = matrix([rng.randint(-2, 2) + rng.random()])
+        cE = -G.T * z0 - AE.T * yE
+        def run_conelpE(inj, G=G, h=h, cE=cE, dims=dims, AE=AE, bE=bE):
+            factor = misc.kkt_ldl(G, dims, AE)
+            inj.make = lambda W: factor(W)
+            return quiet(solvers.conelp, cE, G, h, dims, AE, bE, kktsolver=inj.kktsolver, options={'show_progress': False})
+        out.append(('conelpE%d' % i, 'conelp', run_conelpE))
+        DATA['conelpE%d' % i] = {'dims': dims, 'G': G, 'h': h, 'c': cE, 'P': None, 'A': AE, 'b': bE}
         # --- coneqp
         B = rmat(n, n); P = B.T * B + matrix([1.0 if a == b else 0.0 for a in range(n) for b in range(n)], (n, n)) * 0.1
         q = rmat(n, 1)
@@ -97,6 +112,7 @@ def base_problems(cvxopt, rng, count):
             inj.make = lambda W: factor(W, P)
             return quiet(solvers.coneqp, P, q, G, h, dims, kktsolver=inj.kktsolver, options={'show_progress': False})
         out.append(('coneqp%d' % i, 'coneqp', run_coneqp))
+        DATA['coneqp%d' % i] = {'dims': dims, 'G': G, 'h': h, 'c': q, 'P': P}
         # --- conelp / coneqp with two semidefinite blocks (orders 2 and 3) next to a componentwise block
         dS = {'l': 2, 'q': [], 's': [2, 3]}
         def symcol():
@@ -190,6 +206,20 @@ def base_problems(cvxopt, rng, count):
             inj.make = mk
             return quiet(solvers.cpl, cc, Fcpl, Gc, hc, dl, kktsolver=inj.kktsolver, options={'show_progress': False})
         out.append(('cpl%d' % i, 'cpl', run_cpl))
+        DATA['cpl%d' % i] = {'dims': dl, 'nonlinear': True}
+        # --- cpl with second-order and semidefinite blocks behind the nonlinear constraint (offsets of the cone parts start at mnl)
+        dQ = {'l': 2, 'q': [3], 's': [2]}
+        GQ = matrix([[rng.randint(-2, 2) + rng.random() for _ in range(2 + 3)] + (lambda a, b_, d: [a, b_, b_, d])(rng.random(), rng.random(), rng.random()) for _ in range(n)])
+        hQ = matrix([1.0 + rng.random(), 1.0 + rng.random(), 3.0, 0.4, -0.3, 2.0, 0.2, 0.2, 1.5])
+        def run_cplQ(inj, Fcpl=Fcpl, GQ=GQ, hQ=hQ, dQ=dQ, cc=cc, A0=A0):
+            factor = misc.kkt_ldl(GQ, dQ, A0, 1)
+            def mk(x, z, W):
+                f, Df, H = Fcpl(x, z)
+                return factor(W, H, Df)
+            inj.make = mk
+            return quiet(solvers.cpl, cc, Fcpl, GQ, hQ, dQ, kktsolver=inj.kktsolver, options={'show_progress': False})
+        out.append(('cplQ%d' % i, 'cpl', run_cplQ))
+        DATA['cplQ%d' % i] = {'dims': dQ, 'nonlinear': True}
         def Fcp(x=None, z=None, n=n, cc=cc):
             if x is None: return 0, matrix(0.0, (n, 1))
             if max(abs(x)) >= 1.0: return None
@@ -206,6 +236,7 @@ def base_problems(cvxopt, rng, count):
             inj.make = mk
             return quiet(solvers.cp, Fcp, Gc, hc, dl, kktsolver=inj.kktsolver, options={'show_progress': False})
         out.append(('cp%d' % i, 'cpl', run_cp))
+        DATA['cp%d' % i] = {'dims': dl, 'nonlinear': True, 'epigraph': True}
     return out
 
 def precision_runs(ctx, cvxopt, rng):
@@ -236,6 +267,42 @@ def precision_runs(ctx, cvxopt, rng):
     ctx.cov['precision_runs'] = stat
     return n
 
+def min_slack(v, dims, mnl=0):
+    """distance of v to the boundary of the cone in the sense of the documentation: min over the componentwise entries, v0 - ||v1|| of the
+    'q' blocks, smallest eigenvalue of the 's' blocks (computed here, not with misc.max_step)"""
+    from cvxopt import matrix, lapack
+    vals = [v[i] for i in range(mnl + dims['l'])]
+    k = mnl + dims['l']
+    for m in dims['q']:
+        vals.append(v[k] - math.sqrt(sum(v[k + 1 + j]**2 for j in range(m - 1)))); k += m
+    for m in dims['s']:
+        if m:
+            M_ = matrix(list(v[k:k + m * m]), (m, m)); w = matrix(0.0, (m, 1)); lapack.syev(M_, w)
+            vals.append(w[0])
+        k += m * m
+    return min(vals) if vals else None
+
+def judge_slacks(r, D):
+    """'primal slack' / 'dual slack' of a result that hands out s and z are the slacks of those very vectors"""
+    from cvxopt import matrix
+    dims = D['dims']
+    if D.get('nonlinear'):
+        if r.get('snl') is None or r.get('sl') is None: return None
+        mnl = len(r['snl'])
+        pairs = (('primal slack', matrix([r['snl'], r['sl']])), ('dual slack', matrix([r['znl'], r['zl']])))
+    else:
+        if r.get('s') is None or r.get('z') is None: return None
+        mnl = 0
+        pairs = (('primal slack', r['s']), ('dual slack', r['z']))
+    for key, v in pairs:
+        rec = min_slack(v, dims, mnl); rep = r.get(key)
+        if rec is None or rep is None: continue
+        if D.get('epigraph'):
+            # cp reports the fields of cpl applied to the epigraph form: the slack of the epigraph constraint f0(x) <= t (not handed out) takes part
+            if not (-1e-12 < rep <= rec + 1e-6 * (1 + abs(rec))): return "'%s' is %r, not in (0, %r] (the slack of the returned vector)" % (key, rep, rec)
+        elif abs(rep - rec) > 1e-6 * (1 + abs(rec)): return "'%s' is %r but the returned vector has slack %r" % (key, rep, rec)
+    return None
+
 def judge_unknown(cvxopt, r, D):
     """an 'unknown' result of conelp / coneqp with 's' blocks: s and z are the last iterates - symmetric blocks, strictly inside the cone - and
     the accuracy fields are those of the returned vectors (gap = <s, z>, primal infeasibility = ||Gx + s - h|| / max(1, ||h||))"""
@@ -246,6 +313,9 @@ def judge_unknown(cvxopt, r, D):
     for key, v in (('s', s_), ('z', z_)):
         k = dims['l']
         if any(not (v[i] > 0) for i in range(k)): return '%s is not strictly inside the cone' % key
+        for m in dims['q']:
+            if not (v[k] > math.sqrt(sum(v[k + 1 + j]**2 for j in range(m - 1)))): return '%s is not strictly inside the cone' % key
+            k += m
         for m in dims['s']:
             M_ = matrix(list(v[k:k + m * m]), (m, m))
             asym = max(abs(M_[a, b] - M_[b, a]) for a in range(m) for b in range(m))
@@ -257,8 +327,20 @@ def judge_unknown(cvxopt, r, D):
     if r.get('gap') is not None and abs(r['gap'] - gap) > 1e-6 * (1 + abs(gap)): return "'gap' is %r but <s, z> = %r" % (r['gap'], gap)
     res = G * x + s_ - h
     pres = math.sqrt(abs(misc.sdot(res, res, dims))) / max(1.0, math.sqrt(abs(misc.sdot(h, h, dims))))
+    A, b = D.get('A'), D.get('b')
+    if A is not None:
+        ry = A * x - b
+        pres = max(pres, blas.nrm2(ry) / max(1.0, blas.nrm2(b)))
     rep = r.get('primal infeasibility')
-    if rep is not None and abs(rep - pres) > 1e-6 * (1 + pres) + 1e-9: return "'primal infeasibility' is %r but ||Gx + s - h|| / max(1, ||h||) = %r" % (rep, pres)
+    if rep is not None and abs(rep - pres) > 1e-6 * (1 + pres) + 1e-9: return "'primal infeasibility' is %r but max(||Ax - b|| / max(1, ||b||), ||Gx + s - h|| / max(1, ||h||)) = %r" % (rep, pres)
+    # dual residual of the returned (x, y, z): P x + G'z + A'y + c
+    c = D['c']
+    rx = +c + matrix([misc.sdot(matrix(list(G[:, j])), z_, dims) for j in range(G.size[1])])          # <G_j, z> in the trace inner product
+    if A is not None and r.get('y') is not None: rx = rx + A.T * r['y']
+    if D.get('P') is not None: rx = rx + D['P'] * x
+    dres = blas.nrm2(rx) / max(1.0, blas.nrm2(c))
+    rep = r.get('dual infeasibility')
+    if rep is not None and abs(rep - dres) > 1e-6 * (1 + dres) + 1e-9: return "'dual infeasibility' is %r but ||Px + G'z + A'y + c|| / max(1, ||c||) = %r" % (rep, dres)
     return None
 
 def interior(v, dims, mnl=0):
@@ -317,10 +399,20 @@ def correspond(ctx):
                 ctx.violation('c10:undocumented-exception:%s' % st, what + ' gives ' + st, case)
             elif st == 'valueError':
                 pass
-            elif st == 'unknown' and name in DATA:
+            if st == 'unknown' and name in DATA:
+                bad = judge_slacks(r, DATA[name])
+                if bad:
+                    ctx.violation('c10:unknown-slack-fields:' + frame, what + ": status 'unknown' but " + bad, case)
+            if st == 'unknown' and name in DATA and not DATA[name].get('nonlinear'):
                 bad = judge_unknown(cvxopt, r, DATA[name])
                 if bad:
                     ctx.violation('c10:unknown-inconsistent:' + frame, what + ": status 'unknown' but " + bad, case)
+            elif st == 'unknown' and name in DATA:
+                # cpl / cp: the cone parts sl, zl of an 'unknown' result are the last accepted iterates, strictly inside the cone
+                for key in ('sl', 'zl'):
+                    v = r.get(key)
+                    if v is not None and len(v) > 0 and not (min_slack(v, DATA[name]['dims']) > 0):
+                        ctx.violation('c10:unknown-not-interior:' + frame, what + ": status 'unknown' but %s is not strictly inside the cone" % key, case)
             elif st == 'unknown':
                 dims = {'l': 0, 'q': [], 's': []}
                 # s and z of an 'unknown' result are the last accepted iterates: strictly inside the cone
